@@ -71,6 +71,17 @@ pub fn c01_quick() -> Vec<(Scenario, bool)> {
         ),
         true,
     ));
+    // fork two deep, then the winning branch goes on (rollback of two epochs, traffic at the re-reached epoch)
+    v.push((
+        base(
+            "chain2-winner3",
+            &m,
+            &ad,
+            &[],
+            vec![rename("A", "a1", 10).then(vec![rename("A", "a2", 30).then(vec![rename("A", "a3", 50)])]), rename("B", "b1", 20).then(vec![rename("B", "b2", 40)])],
+        ),
+        true,
+    ));
     // a message next to a race
     v.push((base("race2-msg", &m, &ad, &[], vec![msg("C", "hello"), rename("A", "a", 10), rename("B", "b", 20)]), true));
     // retention boundary: fork two deep with retention 1 is beyond what must converge
@@ -101,5 +112,282 @@ pub fn c02_quick() -> Vec<(Scenario, bool)> {
     v.push((base("msg-on-winner-branch", &m, &ad, &[], vec![rename("A", "a", 10).then(vec![msg("C", "m-c1")]), rename("B", "b", 20)]), true));
     v.push((base("msg-two-same-sender", &m, &ad, &[], vec![msg("C", "m-c0"), msg("C", "m-c0b"), rename("A", "a", 10)]), true));
     v.push((base("msg-across-commit", &m, &ad, &[], vec![msg("C", "m-c0"), rename("A", "a", 10).then(vec![msg("C", "m-c1")])]), true));
+    // exactly at the past-epoch window (5) and a tight configured window
+    v.push(late_message(5, 5));
+    v.push(late_message(2, 2));
+    v.push(ratchet_window(3, 4, 4));
+    v
+}
+
+fn is_admin(ad: &[&str], who: &str) -> bool {
+    ad.contains(&who)
+}
+
+/// timestamp / id-order patterns for k competitors: strict orders + the full tie in every id order (k<=2),
+/// for k=3 all strict orders plus full tie in two id orders
+pub fn orderings(k: usize) -> Vec<Vec<(u64, Option<u8>)>> {
+    fn perms(n: usize) -> Vec<Vec<usize>> {
+        if n == 1 {
+            return vec![vec![0]];
+        }
+        let mut out = vec![];
+        for p in perms(n - 1) {
+            for i in 0..=p.len() {
+                let mut q = p.clone();
+                q.insert(i, n - 1);
+                out.push(q);
+            }
+        }
+        out
+    }
+    let mut v = Vec::new();
+    for p in perms(k) {
+        // strict by timestamp, ids left random
+        v.push(p.iter().map(|r| (10 + 10 * *r as u64, None)).collect());
+    }
+    for p in perms(k).into_iter().take(if k <= 2 { 2 } else { 2 }) {
+        // full tie on timestamp, id order by nibble
+        v.push(p.iter().map(|r| (10u64, Some(1 + 4 * *r as u8))).collect());
+    }
+    if k == 3 {
+        // partial ties: two share the earliest timestamp
+        v.push(vec![(10, Some(2)), (10, Some(9)), (20, None)]);
+        v.push(vec![(10, Some(9)), (10, Some(2)), (20, None)]);
+        v.push(vec![(20, None), (10, Some(9)), (10, Some(2))]);
+    }
+    v
+}
+
+/// every set of `k` concurrent commits by distinct actors on the root state, every ordering
+pub fn one_round(members: &[&str], admins: &[&str], k: usize, with_msg: bool) -> Vec<(Scenario, bool)> {
+    let actors: Vec<&str> = members.iter().copied().filter(|m| *m != "Z").collect();
+    let mut out = Vec::new();
+    // choose k distinct actors (combinations), then one action each
+    let n = actors.len();
+    let mut idx: Vec<usize> = (0..k).collect();
+    if k > n {
+        return out;
+    }
+    loop {
+        let chosen: Vec<&str> = idx.iter().map(|i| actors[*i]).collect();
+        let alph: Vec<Vec<ActKind>> = chosen.iter().map(|a| commit_alphabet(a, is_admin(admins, a)).into_iter().filter(|k| match k { ActKind::Remove(x) => members.contains(&x.as_str()) && x != a, _ => true }).collect()).collect();
+        let mut pick = vec![0usize; k];
+        'outer: loop {
+            let kinds: Vec<ActKind> = pick.iter().enumerate().map(|(j, p)| alph[j][*p].clone()).collect();
+            // at most one Add(D) (one key package) per scenario
+            let adds = kinds.iter().filter(|k| matches!(k, ActKind::Add(_))).count();
+            if adds <= 1 {
+                for (oi, ord) in orderings(k).into_iter().enumerate() {
+                    let mut acts: Vec<Act> = Vec::new();
+                    if with_msg {
+                        acts.push(act("Z", ActKind::Msg("m-z0".into()), 5));
+                    }
+                    for j in 0..k {
+                        let mut a = act(chosen[j], kinds[j].clone(), ord[j].0);
+                        a.nib = ord[j].1;
+                        acts.push(a);
+                    }
+                    let name = format!("r1-{}-{}-o{oi}{}", chosen.join(""), kinds.iter().map(|k| k.short()).collect::<Vec<_>>().join("+"), if with_msg { "-m" } else { "" });
+                    out.push((base(&name, members, admins, &["D"], acts), true));
+                }
+            }
+            // next pick
+            let mut j = 0;
+            loop {
+                pick[j] += 1;
+                if pick[j] < alph[j].len() {
+                    break;
+                }
+                pick[j] = 0;
+                j += 1;
+                if j == k {
+                    break 'outer;
+                }
+            }
+        }
+        // next combination
+        let mut i = k;
+        loop {
+            if i == 0 {
+                return out;
+            }
+            i -= 1;
+            if idx[i] != i + n - k {
+                break;
+            }
+            if i == 0 {
+                return out;
+            }
+        }
+        idx[i] += 1;
+        for j in i + 1..k {
+            idx[j] = idx[j - 1] + 1;
+        }
+    }
+}
+
+/// chains of forks: a race at the root, each branch continued by one more commit (optionally a third level)
+pub fn chains(depth: usize, retention: usize) -> Vec<(Scenario, bool)> {
+    let m = ["A", "B", "C", "Z"];
+    let ad = ["A", "B"];
+    let mut out = Vec::new();
+    // who continues each branch: the committer itself or the other admin; C self-updates as a third voice
+    let conts: Vec<(&str, ActKind)> = vec![("A", ActKind::Rename("x".into())), ("B", ActKind::Relay("wss://x.example".into())), ("C", ActKind::SelfUpdate)];
+    for (wi, wc) in conts.iter().enumerate() {
+        for (li, lc) in conts.iter().enumerate() {
+            if wc.0 == lc.0 {
+                // one client cannot author on two branches at once
+                continue;
+            }
+            for order in 0..2 {
+                let (tw, tl) = if order == 0 { (10, 20) } else { (20, 10) };
+                let mut wbranch = act(wc.0, wc.1.clone(), 30);
+                let mut lbranch = act(lc.0, lc.1.clone(), 40);
+                if depth >= 3 {
+                    wbranch = wbranch.then(vec![rename("A", "w3", 50)]);
+                    lbranch = lbranch.then(vec![rename("B", "l3", 60)]);
+                }
+                let root = vec![rename("A", "a1", tw).then(vec![wbranch]), rename("B", "b1", tl).then(vec![lbranch])];
+                let mut sc = base(&format!("chain{depth}-w{wi}-l{li}-o{order}"), &m, &ad, &[], root);
+                sc = with_retention(sc, retention);
+                // forks deeper than the retention need not converge
+                let expect = depth <= retention;
+                if single_author_paths(&sc) {
+                    out.push((sc, expect));
+                }
+            }
+        }
+    }
+    out
+}
+
+/// leave proposal with the admin's auto-commit racing another commit
+pub fn leaves() -> Vec<(Scenario, bool)> {
+    let m = ["A", "B", "C", "Z"];
+    let ad = ["A", "B"];
+    let mut out = Vec::new();
+    for order in 0..2 {
+        let (t1, t2) = if order == 0 { (10, 20) } else { (20, 10) };
+        out.push((base(&format!("leave-autocommit-vs-rename-o{order}"), &m, &ad, &[], vec![act("C", ActKind::Leave, 5), act("A", ActKind::CommitLeave("C.leave0".into()), t1), rename("B", "b", t2)]), true));
+    }
+    out.push((base("leave-autocommit-only", &m, &ad, &[], vec![act("C", ActKind::Leave, 5), act("A", ActKind::CommitLeave("C.leave0".into()), 10)]), true));
+    // two admins both auto-commit the same leave
+    out.push((base("leave-two-autocommits", &m, &ad, &[], vec![act("C", ActKind::Leave, 5), act("A", ActKind::CommitLeave("C.leave0".into()), 10), act("B", ActKind::CommitLeave("C.leave0".into()), 20)]), true));
+    out
+}
+
+/// group sizes 2..6, one race
+pub fn sizes() -> Vec<(Scenario, bool)> {
+    let mut out = Vec::new();
+    let all = ["A", "B", "C", "E", "F", "Z"];
+    for n in 2..=6usize {
+        let mut m: Vec<&str> = all[..n - 1].to_vec();
+        m.push("Z");
+        let ad: Vec<&str> = if n >= 3 { vec!["A", "B"] } else { vec!["A", "Z"] };
+        let second = if n >= 3 { "B" } else { "Z" };
+        for order in 0..2 {
+            let (t1, t2) = if order == 0 { (10, 20) } else { (20, 10) };
+            out.push((base(&format!("size{n}-o{order}"), &m, &ad, &[], vec![rename("A", "a", t1), rename(second, "b", t2)]), true));
+        }
+    }
+    out
+}
+
+pub fn c01_thorough() -> Vec<(Scenario, bool)> {
+    let m4 = ["A", "B", "C", "Z"];
+    let mut v = c01_quick();
+    v.extend(one_round(&m4, &["A", "B"], 2, false));
+    v.extend(one_round(&m4, &["A"], 2, false));
+    v.extend(one_round(&m4, &["A", "B", "C"], 2, false));
+    v.extend(one_round(&m4, &["A", "B"], 2, true));
+    v.extend(one_round(&m4, &["A", "B", "C"], 3, false));
+    v.extend(chains(2, 5));
+    v.extend(chains(2, 2));
+    v.extend(chains(2, 1));
+    v.extend(chains(3, 3));
+    v.extend(chains(3, 2));
+    v.extend(leaves());
+    v.extend(sizes());
+    v
+}
+
+/// a message at the root followed by a linear chain of `d` commits: delivered up to `d` epochs late
+pub fn late_message(d: usize, max_past_epochs: usize) -> (Scenario, bool) {
+    let m = ["A", "C", "Z"];
+    let ad = ["A"];
+    let mut chain: Option<Act> = None;
+    for i in (0..d).rev() {
+        let mut a = rename("A", &format!("n{i}"), 10 + 10 * i as u64);
+        if let Some(c) = chain.take() {
+            a = a.then(vec![c]);
+        } else {
+            a = a.then(vec![]);
+        }
+        chain = Some(a);
+    }
+    let mut root = vec![msg("C", "late-m0")];
+    if let Some(c) = chain {
+        root.push(c);
+    }
+    let mut sc = base(&format!("late-msg-d{d}-p{max_past_epochs}"), &m, &ad, &[], root);
+    sc.cfg.max_past_epochs = max_past_epochs;
+    (sc, true)
+}
+
+/// n messages of one sender with tight ratchet windows (every order stays inside the windows)
+pub fn ratchet_window(n: usize, tolerance: u32, forward: u32) -> (Scenario, bool) {
+    let m = ["A", "C", "Z"];
+    let ad = ["A"];
+    let mut root = Vec::new();
+    for i in 0..n {
+        root.push(msg("C", &format!("w-m{i}")));
+    }
+    let mut sc = base(&format!("ratchet-n{n}-t{tolerance}-f{forward}"), &m, &ad, &[], root);
+    sc.cfg.out_of_order_tolerance = tolerance;
+    sc.cfg.maximum_forward_distance = forward;
+    (sc, true)
+}
+
+pub fn c02_thorough() -> Vec<(Scenario, bool)> {
+    let mut v = c02_quick();
+    let m4 = ["A", "B", "C", "Z"];
+    v.extend(one_round(&m4, &["A", "B"], 2, true));
+    for (d, p) in [(1, 1), (2, 2), (3, 3), (4, 5), (5, 5), (5, 8)] {
+        v.push(late_message(d, p));
+    }
+    // windows strictly larger than the number of messages, so every order is inside them whatever the
+    // exact off-by-one convention of the ratchet is
+    for (n, t, f) in [(3, 4, 1000), (3, 100, 4), (4, 5, 5), (3, 4, 4)] {
+        v.push(ratchet_window(n, t, f));
+    }
+    // messages on both branches of chains
+    for order in 0..2 {
+        let (t1, t2) = if order == 0 { (10, 20) } else { (20, 10) };
+        v.push((base(&format!("chain-msgs-o{order}"), &m4, &["A", "B"], &[], vec![msg("Z", "z0"), rename("A", "a1", t1).then(vec![msg("C", "c-on-a"), rename("A", "a2", 30)]), rename("B", "b1", t2).then(vec![msg("C", "c-on-b")])]), true));
+    }
+    v
+}
+
+fn relays(a: &str, us: &[&str], ts: u64) -> Act {
+    act(a, ActKind::Relays(us.iter().map(|s| s.to_string()).collect()), ts)
+}
+
+/// C08: every kind of group-data change, alone, chained and on a losing branch
+pub fn c08_quick() -> Vec<(Scenario, bool)> {
+    let m = ["A", "B", "C", "Z"];
+    let ad = ["A", "B"];
+    let mut v: Vec<(Scenario, bool)> = Vec::new();
+    // relay set grows, then only shrinks, then becomes empty
+    v.push((base("relays-grow-shrink", &m, &ad, &[], vec![relays("A", &["wss://r0.example", "wss://r1.example", "wss://r2.example"], 10).then(vec![relays("A", &["wss://r1.example"], 20).then(vec![relays("A", &[], 30)])])]), true));
+    // image set, replaced, cleared
+    v.push((base("image-set-clear", &m, &ad, &[], vec![act("A", ActKind::Image(Some(0x40)), 10).then(vec![act("B", ActKind::Image(Some(0x50)), 20).then(vec![act("A", ActKind::Image(None), 30)])])]), true));
+    // id rotation then more commits tagged with the new id, racing a rename tagged with the old one
+    v.push((base("rotate-then-rename", &m, &ad, &[], vec![act("A", ActKind::RotateId(0xA1), 10).then(vec![rename("B", "after-rotate", 30)]), rename("B", "old-id-rename", 20)]), true));
+    // rotation on the losing branch (rolled back)
+    v.push((base("rotate-loses", &m, &ad, &[], vec![act("A", ActKind::RotateId(0xA2), 20).then(vec![rename("A", "on-rotated", 40)]), rename("B", "winner", 10).then(vec![act("B", ActKind::Describe("d2".into()), 30)])]), true));
+    // admin set and description
+    v.push((base("admins-describe", &m, &ad, &[], vec![act("A", ActKind::Admins(vec!["A".into(), "C".into()]), 10).then(vec![act("C", ActKind::Describe("by-new-admin".into()), 20)]), act("B", ActKind::Describe("by-old-admin".into()), 15)]), true));
+    // non-admin self-update applied both ways, with a message
+    v.push((base("selfupdate-msg", &m, &ad, &[], vec![msg("C", "c08-m"), act("C", ActKind::SelfUpdate, 10).then(vec![act("A", ActKind::SelfUpdate, 20)])]), true));
     v
 }
